@@ -57,7 +57,7 @@ def eq(eng, a, b):
     return eng.compare(ast.Eq(), a, b)
 
 
-def append_step(pattern, folders, opts, new):
+def append_step(pattern, folders, opts, new, focus=None):
     """new: string of member kinds appended in the session ('s' writestr, 'd' directory via write())"""
     n0 = len(pattern)
     r = ObResult(bounds="base layout %s (sizes/CRCs/times/pack sizes symbolic), one append session adding %r (sizes symbolic), "
@@ -125,6 +125,10 @@ def append_step(pattern, folders, opts, new):
             c.append((f.get("mtime") is None) == (en["mtime"] is None))
             if en["mtime"] is not None and f.get("mtime") is not None:
                 c.append(eq(eng, f["mtime"], en["mtime"]))
+            if en.get("ctime") is not None and focus == "ctime":
+                c.append(f.get("ctime") is not None)
+                if f.get("ctime") is not None:
+                    c.append(eq(eng, f["ctime"], en["ctime"]))
             if i in w.member_range:
                 fi, off, size = w.member_range[i]
                 c.append(mm[i]["folder"] == fi)
@@ -194,6 +198,12 @@ def append_step(pattern, folders, opts, new):
     _cex(r, "append_step", lambda w_: dict(module="vf.props.c08", func="replay", kwargs=dict(
         pattern=pattern, folders=folders, opts=opts, new=new,
         witness={k: int(v) for k, v in w_.items() if isinstance(v, int)})), signature=lambda w_: _sig(pattern, folders, opts, new))
+    if focus:
+        # this obligation is about one field only: say so in the signature (and whether it failed for another reason)
+        for c_, (w_, obs, m_) in zip(r.cex, getattr(r, "_bad", [])):
+            other = "exc" in obs or "ref_error" in obs or "__uncaught__" in obs
+            c_["signature"] = {"obligation": "append_step", "focus": focus, "class": "other failure" if other else "creation_time_lost"}
+            c_["replay"]["kwargs"]["focus"] = focus
     return r
 
 
@@ -203,7 +213,7 @@ def _sig(pattern, folders, opts, new):
                 new_data_members=sum(1 for k in new if k == "s"))
 
 
-def replay(pattern, folders, opts, new, witness):
+def replay(pattern, folders, opts, new, witness, focus=None):
     """append with the real library (Copy codec) to the concrete counterpart, read back with py7zr and check the map"""
     import os
     import tempfile
@@ -269,6 +279,10 @@ def replay(pattern, folders, opts, new, witness):
             mm = ref7z.member_map(h)
         except Exception as e:  # noqa
             return True, "the header written by the append session is rejected by the independent reader: %r" % (e,)
+        if focus == "ctime":
+            lost = [en["name"] for en, hf in zip(entries, h["files"]) if en.get("ctime") is not None and hf.get("ctime") != en["ctime"]]
+            return bool(lost), "creation times of the base archive's members after the append: %s" % (
+                ("LOST for %s" % lost) if lost else "kept")
         if opts.get("emptyfile_vector"):
             for en, hf in zip(entries, h["files"]):
                 if en["kind"] in "ed" and hf["emptyfile"] != (en["kind"] == "e"):
@@ -304,4 +318,8 @@ def units(tier):
         for nw in news:
             us.append(Unit("append[%s + %s]" % (RC.shape_name(p, f, o), nw or "nothing"), M, "append_step",
                            dict(pattern=p, folders=f, opts=o, new=nw), 1200))
+    # metadata py7zr's writer does not carry: creation times of a foreign base (one obligation of its own, open finding K07)
+    for nw in (["s"] if tier == "quick" else ["s", "d", ""]):
+        us.append(Unit("append_keeps_ctime[f/1 + %s]" % (nw or "nothing"), M, "append_step",
+                       dict(pattern="f", folders=[1], opts={"ctime": True}, new=nw, focus="ctime"), 1200))
     return us
